@@ -437,14 +437,25 @@ impl<'r> Gen<'r> {
                     gen_zinc::gen_doc(rng, &cfg, None).text
                 }
             },
-            S::Json => match rng.below(3) {
-                0 => rng.pick_str(corpus::JSON_HAND).as_bytes().to_vec(),
-                _ => {
-                    let mut cfg = JsonCfg::swarm(rng);
-                    cfg.max_depth = cfg.max_depth.min(2);
-                    gen_json::gen_doc(rng, &cfg)
+            S::Json => {
+                let base = match rng.below(3) {
+                    0 => rng.pick_str(corpus::JSON_HAND).as_bytes().to_vec(),
+                    _ => {
+                        let mut cfg = JsonCfg::swarm(rng);
+                        cfg.max_depth = cfg.max_depth.min(2);
+                        gen_json::gen_doc(rng, &cfg)
+                    }
+                };
+                // a quarter of the documents carry one member-level fault (a member repeated, moved,
+                // or foreign): still JSON, and the C entry point must judge it as the Rust one does
+                let variants = if base.len() <= 1500 && rng.chance(1, 4) { crate::mutate::json_member_variants(&base) } else { Vec::new() };
+                if variants.is_empty() {
+                    base
+                } else {
+                    let k = rng.below(variants.len() as u64) as usize;
+                    variants[k].1.clone()
                 }
-            },
+            }
         })
     }
 
@@ -1389,7 +1400,7 @@ pub fn run_case(case: &Case, mode: Mode) -> Outcome {
         out.violate(sig, detail);
     }
     if mode == Mode::Memory && out.violation.is_none() {
-        // Leak oracle: everything the protocol obliges the caller to destroy has been destroyed.
+        // Leak and allocation-size oracle: everything the protocol obliges the caller to destroy has been destroyed.
         // Stage 1 (cheap): net live heap blocks of the history; not zero => run it again, now that
         // lazy statics and caches are warm. Stage 2 (authoritative): LeakSanitizer. In an isolated
         // child process (replay, minimisation, confirmation) LeakSanitizer is always asked.
@@ -1397,14 +1408,28 @@ pub fn run_case(case: &Case, mode: Mode) -> Outcome {
         static TAINTED: AtomicBool = AtomicBool::new(false);
         static SEEN: AtomicU64 = AtomicU64::new(0);
         let nth = SEEN.fetch_add(1, Ordering::Relaxed);
-        let mut suspicious = r.net_blocks.is_some_and(|n| n != 0);
-        if suspicious {
+        // (net blocks, net bytes) of the history; anything not zero => run it again, now that lazy
+        // statics and caches are warm, and judge the second run
+        let mut net = (r.net_blocks, r.net_bytes);
+        if net.0.is_some_and(|n| n != 0) || net.1.is_some_and(|n| n != 0) {
             out.probe("reach:leak-prefilter-rerun", 1);
             let r2 = capi::run_history(&ops, mode, false);
-            suspicious = r2.net_blocks.is_some_and(|n| n != 0);
+            net = (r2.net_blocks, r2.net_bytes);
+        }
+        let suspicious = net.0.is_some_and(|n| n != 0);
+        if net.0 == Some(0) && net.1.is_some_and(|n| n != 0) {
+            // every block came back, but not with the size it was allocated with: the allocator
+            // contract (`GlobalAlloc::dealloc`: same layout) is broken, e.g. by a string rebuilt
+            // from a `strlen` shorter than the buffer that was handed out
+            out.violate(
+                "C18 alloc:size-mismatch capi-history".into(),
+                format!("every heap block of the history was released, but the sizes stated at deallocation differ from the sizes allocated by {} byte(s) in total (run twice): a block was given back to the allocator with another size than it was allocated with", net.1.unwrap_or(0)),
+            );
         }
         let tainted = TAINTED.load(Ordering::Relaxed);
-        if tainted {
+        if out.violation.is_some() {
+            // the size oracle has spoken
+        } else if tainted {
             // a leak already exists in this process: LeakSanitizer would keep reporting it, so its
             // answer carries no information any more; the block count alone decides here (and the
             // driver re-confirms whatever it reports in a fresh process, where LeakSanitizer is asked)
